@@ -499,7 +499,7 @@ pub fn run(rep: &mut Rep) {
         SPacket::Ack { kind: AckKind::Pubcomp, id: 3, reason: 0, props: vec![], form: AckForm::Short2 }.encode(),
     ]
     .concat();
-    rep.note(&format!("(d) canned conversation of {} inbound bytes: EOF and read error injected at every byte offset; write error injected at every outbound byte offset (connect, authorize and run phases)", conv.len()));
+    rep.note(&format!("(d) canned conversation of {} inbound bytes: EOF and read error injected at every byte offset; write error, and a sink that accepts nothing more (poll_write returning Ok(0), behind whole or 2-byte partial writes), injected at every outbound byte offset (connect and run phases)", conv.len()));
     for off in 0..=conv.len() {
         for f in 0..2 {
             let id = format!("fault:read:{off}:{f}");
@@ -519,15 +519,24 @@ pub fn run(rep: &mut Rep) {
         su.sim.settle();
         su.sim.written_len()
     };
-    for off in 0..=total_written {
-        let id = format!("fault:write:{off}");
+    for off2 in 0..=(2 * total_written + 1) {
+        // kind 0: the write fails with an error; kind 1: the sink accepts nothing more (poll_write returns Ok(0))
+        let (off, kind) = (off2 / 2, off2 % 2);
+        let id = if kind == 0 { format!("fault:write:{off}") } else { format!("fault:write-zero:{off}") };
         idx += 1;
         if !rep.take(idx, &id) {
             continue;
         }
-        // the error is armed before the client starts; whichever call is writing at that offset must fail cleanly
+        // the fault is armed before the client starts; whichever call is writing at that offset must fail cleanly
         let mut sim = Sim::new(rep.seed);
-        sim.writer.0.borrow_mut().err_at = Some(off);
+        if kind == 0 {
+            sim.writer.0.borrow_mut().err_at = Some(off);
+        } else {
+            sim.writer.0.borrow_mut().zero_at = Some(off);
+            // partial writes in front of the full sink
+            sim.writer.0.borrow_mut().plan = if off % 3 == 0 { WritePlan::All } else { WritePlan::Max(2) };
+            rep.add("zero_length_write_faults", 1);
+        }
         sim.cmd(Cmd::Connect(ConnSpec::default()));
         sim.settle();
         let mut results = sim.ctx_results().len();
@@ -574,7 +583,7 @@ pub fn run(rep: &mut Rep) {
         }
         rep.add("evaluations", 1);
         rep.add("write_faults", 1);
-        rep.distinct(&("wf", off));
+        rep.distinct(&("wf", off, kind));
         for p in sim.panics.clone() {
             rep.violation(&format!("C04/panic/{}/phase=write-fault", classify_panic(&p)), &id, &format!("write error at outbound offset {off}: {p}\n{}", sim.tail_log(20)));
         }
